@@ -19,12 +19,12 @@ CFG = dict(
         "single device per connection: proxy / multi-device containers are outside the model; channel mode is modelled one Packet at a time, "
         "the harness runs the real channel loops of both ends (incl. handle()/conn.start) on an in-memory duplex connection; channels end by a dropped connection only",
     ],
-    level_text="29 theorems over the Gallina model of subtle.XorOp / Chunk.KeyCrypt, KeyPair.fillShared and the key state machine of both ends "
+    level_text="30 theorems over the Gallina model of subtle.XorOp / Chunk.KeyCrypt, KeyPair.fillShared and the key state machine of both ends "
                "(keyNextSync, keyCheckSync, keyCheckRevert, keySessionGenerate, keySessionSync, keyListenerInit, keyCryptAndUpdate, the per-connection key copy): "
                "the cipher is an involution and keeps the length for ALL buffers and ALL keys; a short ECDH secret keeps the tail of the previous share and "
                "that is harmless while previous shares are equal; for ALL histories (induction over the event list: handshakes, re-keys, traffic, failed writes, "
                "harmless reply losses, server restarts, re-registrations, ECDH outputs of any length) both ends hold the same share and keysNext = nil whenever "
-               "the client is idle and registered; a failed write reverts; a pending pair is never replaced before it is swapped or cancelled; payloads round-trip under agreement; the text form of a key (String/Parse) restores its bytes; pick() never draws a re-key for a client inside a channel and every payload exchanged inside a channel decrypts to the original (conn.keys = both shares, for all histories). Four fault shapes violate the property on the "
+               "the client is idle and registered; a failed write reverts; a pending pair is never replaced before it is swapped or cancelled; keyNextSync announces no pair while the Session is being migrated; payloads round-trip under agreement; the text form of a key (String/Parse) restores its bytes; pick() never draws a re-key for a client inside a channel and every payload exchanged inside a channel decrypts to the original (conn.keys = both shares, for all histories). Four fault shapes violate the property on the "
                "real code (refuted in Coq, reproduced by the harness on every run, known findings); a fourth (re-key merged into a Multi container), the Server generating its key pair concurrently with the first hellos, and a further one (re-key inside a channel, found by the oracle-only channel scenario) were repaired. "
                "The model is tied to /repo by ~2800 cases per run: real XorOp/KeyCrypt, real P-521 KeyPairs incl. forced short secrets, and scripted histories "
                "through the real listen()/session()/handle() with injected faults, each evaluated by the model inside Coq.",
